@@ -4,7 +4,7 @@ from hypothesis import strategies as st
 from vlib.runner import Violation, call
 
 PID = "C19"
-RULE = ("Hypothesis-generated parameters (exponential a in (0.01,10]; Poisson mean in (0,1000] (floats and ints), k up to 1000; integer-typed exponents; power law alpha in "
+RULE = ("Hypothesis-generated parameters (exponential a in (0.01,3000] (floats and ints); Poisson mean in (0,1000] (floats and ints), k up to 1000; integer-typed exponents; power law alpha in "
         "[2,8]; cut-off power law alpha in [2,6], kappa in [0.01,2000]) x degrees k over the support (Python and numpy "
         "ints); oracle = mpmath closed forms at 40 digits (zeta, polylog) within the series-truncation tolerance "
         "derived from the code's stopping rule; non-negativity; partial sums + analytic tail = 1. Non-trivial = "
@@ -19,7 +19,7 @@ def strategy(tier):
     ks = st.lists(st.integers(0, 60), min_size=1, max_size=6)
     bigk = st.lists(st.one_of(st.integers(0, 100), st.integers(100, 10000)), min_size=1, max_size=6)
     return st.one_of(
-        st.fixed_dictionaries({"dist": st.just("exponential"), "a": st.floats(0.01, 10.0), "ks": bigk, "np": st.sampled_from([False, False, "int64", "uint64", "uint16", "int32"])}),
+        st.fixed_dictionaries({"dist": st.just("exponential"), "a": st.one_of(st.floats(0.01, 10.0), st.floats(0.01, 10.0), st.floats(10.0, 3000.0), st.integers(1, 2000)), "ks": bigk, "np": st.sampled_from([False, False, "int64", "uint64", "uint16", "int32"])}),
         st.fixed_dictionaries({"dist": st.just("poisson"), "m": st.one_of(st.floats(0.01, 20.0), st.floats(20.0, 1000.0), st.integers(1, 300)), "ks": st.lists(st.one_of(st.integers(0, 100), st.integers(100, 1000)), min_size=1, max_size=6), "np": st.sampled_from([False, False, "int64", "uint64", "uint16", "int32"])}),
         st.fixed_dictionaries({"dist": st.just("power_law"), "alpha": st.one_of(st.floats(2.0, 8.0), st.integers(2, 12)), "ks": bigk, "np": st.sampled_from([False, False, "int64", "uint64", "uint16", "int32"])}),
         st.fixed_dictionaries({"dist": st.just("cutoff"), "alpha": st.one_of(st.floats(2.0, 6.0), st.integers(2, 8)),
